@@ -611,6 +611,21 @@ class ArmRig:
             self.Glist = np.ascontiguousarray(case["G"], dtype=float)
             if self.Glist.shape != (n, 6, 6):
                 raise HarnessError("G shape %s" % (self.Glist.shape,))
+        if custom_frames and case.get("L0") is not None and case.get("G0") is not None:
+            # history: the arm was first configured with OTHER link frames / inertias, asked about its dynamics once,
+            # and is only then given the configuration of the case through the same public setters.  Everything below
+            # refers to the final configuration; nothing of the first may survive (caches, tables).
+            L0 = [B @ T for T in np.asarray(case["L0"], dtype=float)]
+            M0l = [L0[0]] + [O.inv(L0[i - 1]) @ L0[i] for i in range(1, n)] + [O.inv(L0[n - 1]) @ tool]
+            G0 = np.ascontiguousarray(case["G0"], dtype=float)
+            sut(arm.setOrigins, link_homes_global=[tm(T.copy()) for T in L0])
+            sut(arm.setMassProperties, np.array([G0[i][3, 3] for i in range(n)]), [tm(T.copy()) for T in M0l], G0.copy())
+            z = np.zeros(n)
+            sut(arm.inverseDynamics, np.full(n, 0.1), z.copy(), z.copy())
+            sut(arm.massMatrix, np.full(n, 0.1))
+            self.reconfigured = True
+        else:
+            self.reconfigured = False
         if custom_frames:
             sut(arm.setOrigins, link_homes_global=[tm(T.copy()) for T in Lg])
         if custom_frames or case.get("G") is not None:
@@ -654,6 +669,8 @@ def arm_labels(ctx, case, rig):
         ctx.label("gravity defaulted")
     if np.any(np.asarray(spec.get("base", np.zeros(6))) != 0):
         ctx.label("base moved")
+    if getattr(rig, "reconfigured", False):
+        ctx.label("re-configured through the setters after a first dynamics query")
     if in_band(case["q"]):
         ctx.label("q in NearZero band")
 
@@ -882,6 +899,9 @@ def arm_cases(draw, need_tau=False):
         c["arm"] = spec
         c["L"] = draw(link_frames(n))
         c["G"] = np.ascontiguousarray(np.stack([draw(G.spd_spatial_inertia()) for _ in range(n)]))
+        if draw(st.integers(0, 2)) == 0:
+            c["L0"] = draw(link_frames(n))
+            c["G0"] = np.ascontiguousarray(np.stack([draw(G.spd_spatial_inertia()) for _ in range(n)]))
     c["q"] = np.array([draw(joint_values()) for _ in range(n)])
     c["qd"] = draw(vecs(n, 100.0))
     c["qdd"] = draw(vecs(n, 100.0))
